@@ -77,10 +77,12 @@ class Container(BaseResource):
     def _do_put(self, event: ContainerPut) -> bool:
         new_level = self._level + event.amount
         # Test the amount against the room that is left *and* the very value
-        # that is stored: capacity - level >= amount can hold in floating point
-        # although level + amount rounds above capacity, and level + amount <=
-        # capacity holds for every amount too small to change a full level.
-        if (self._capacity - self._level >= event.amount
+        # that is stored: the room can suffice in floating point although
+        # level + amount rounds above capacity, and level + amount <= capacity
+        # holds for every amount too small to change a full level.  The room
+        # test is written negatively: for an inexhaustible source (level and
+        # capacity both inf) the room is inf - inf = NaN and the put fits.
+        if (not self._capacity - self._level < event.amount
                 and new_level <= self._capacity):
             self._level = new_level
             event.succeed()
